@@ -176,8 +176,7 @@ def coreFn (fn : String) (args : List String) : Option String :=
       | .ok a => List.elem a present
       | _ => false
     let sp := match Spec.vfsConfigDirSpec en ex name with | some r => showOptPath r | none => "-"
-    let cls := match User.configDir en with | .ok _ => "-" | _ => "no_home_hides_system_dirs"
-    pure (line3 (showOptPath (User.vfsConfigDir en ex name)) sp cls)
+    pure (line3 (showOptPath (User.vfsConfigDir en ex name)) sp "-")
   | _, _ => none
 
 end Driver
